@@ -69,7 +69,81 @@ def gen_case(rng, tier, index):
     case["policy"] = rng.choice(["random", "random", "pct", "starve",
                                  "run_to_block", "round_robin"])
     case["policy_param"] = rng.randrange(0, 6)
+    # cross-check of the SimPool stub: a few cases use the real
+    # multiprocessing.Pool (real processes, uncontrolled, in a forked child
+    # with a watchdog); only schedule-independent facts are asserted
+    case["real_pool"] = rng.random() < (0.04 if tier == "quick" else 0.15)
     return case
+
+
+def run_real_pool(case):
+    """write_multiprocessing with real worker processes."""
+    from simlib import eread
+    hist = case["hist"]
+    st = hist["structure"]
+    scratch = fslayer.new_scratch("mwreal")
+    root = os.path.join(scratch, "A", "root")
+    os.makedirs(os.path.dirname(root))
+    last = len(hist["sessions"]) - 1
+    ses = hist["sessions"][last]
+    out = {"ok": True, "vclass": None, "detail": "", "key": {}}
+
+    def child():
+        with dsgen.seams(hist["name_seed"], hist.get("clock", "monotone")):
+            ha = dsgen.HistoryRunner(hist, root, pool_factory=None)
+            ha.create()
+            for k in range(last):
+                ha.run_session(k)
+            ha.reopen()
+            args = [[w, st["attrs"], st["fmt"]] for w in ses["writers"]]
+            res = ha.ds.write_multiprocessing(
+                feed_writer=dsgen.feed_writer, custom_arguments=args,
+                consistency_check=True, single_process=False)
+            fresh = ha.sio.Dataset(root)
+            got = {s: [i for i, _ in dsgen.read_sync(fresh, s, st["attrs"])]
+                   for s in fresh._dataset_info.splits}  # pylint: disable=protected-access
+            return [list(r) for r in res], got
+
+    try:
+        status, val = eread.forked(child, 120.0)
+        nwriters = len(ses["writers"])
+        if status == "hang":
+            out.update(ok=False, vclass="hang", key={"engine": "real_pool"},
+                       detail=f"{nwriters} real worker processes: no result "
+                       f"within 120 s")
+        elif status != "ok":
+            out.update(ok=False, vclass="multi_writer_call_raised",
+                       key={"engine": "real_pool"},
+                       detail=f"{nwriters} real worker processes: {val}")
+        else:
+            res, got = val
+            want_ret = [["wrote", len(w), [x["id"] for x in w][:1]]
+                        for w in ses["writers"]]
+            if res != want_ret:
+                out.update(ok=False,
+                           vclass="return_values_not_in_argument_order",
+                           key={"engine": "real_pool"},
+                           detail=f"expected {want_ret[:6]} got {res[:6]}")
+            for wi, writes in enumerate(ses["writers"]):
+                for split in {w["split"] for w in writes}:
+                    wrote = [w["id"] for w in writes if w["split"] == split]
+                    mine = [i for i in got.get(split, []) if i in set(wrote)]
+                    if mine != wrote and out["ok"]:
+                        out.update(ok=False,
+                                   vclass="writer_order_not_preserved",
+                                   key={"engine": "real_pool"},
+                                   detail=f"split {split} writer {wi}: wrote "
+                                   f"{wrote[:8]} read {mine[:8]}")
+    finally:
+        shutil.rmtree(scratch, ignore_errors=True)
+    out.update({"digest": hashlib.sha1(repr((case["sched_seed"],
+                                             out["ok"])).encode()).hexdigest(),
+                "nontrivial": len(ses["writers"]) >= 2,
+                "stats": {"real_pool_runs": 1},
+                "probes": {"real_multiprocessing_pool": 1},
+                "sample": {"real_pool": True,
+                           "writers": [len(w) for w in ses["writers"]]}})
+    return out
 
 
 class Monitor:
@@ -93,6 +167,8 @@ class Monitor:
 
 
 def run_case(case):
+    if case.get("real_pool"):
+        return run_real_pool(case)
     hist = case["hist"]
     st = hist["structure"]
     stats = collections.Counter()
@@ -287,7 +363,7 @@ def reach(agg):
     p = agg["probes"]
     for name in ("writers_1", "writers_2", "writers_5", "writers_11+",
                  "empty_writer", "several_splits", "after_committed_prefix",
-                 "policy_starve", "policy_pct"):
+                 "policy_starve", "policy_pct", "real_multiprocessing_pool"):
         if not p.get(name):
             need.append(f"probe {name} never hit")
     if not agg["stats"].get("multi_writer_calls_checked"):
